@@ -153,6 +153,8 @@ PckPos(e) ==
       [] e.lvl = 18 -> {4, 5, 6, 7, 8, 9, 10, 11, 12, 16, 17, 18}
       [] OTHER -> {}
 
+PckZero(e, s) == \A i \in PckPos(e) : BNorm(s[i]) = <<>>
+
 AddFs == {"add", "add_basic", "add_integ"}
 SubFs == {"sub", "sub_basic", "sub_integ"}
 DblFs == {"dbl", "dbl_basic", "dbl_integ"}
@@ -259,10 +261,17 @@ FpxAccept(e) ==
                             /\ LET sq == TFlat(T, k, TMul(T, k, a, a)) IN
                                \A i \in PckPos(e) : FCanon(e, e.c[i]) /\ AbsC(e, ri, e.c[i]) = sq[i]
                        ELSE e.err = 0 /\ e.code = 0
-         [] e.f = "back_cyc" -> In1 /\ Clean(e) /\ BackOne(e, ri, T, gs, e.a, e.c)
+         \* Domain of the decompression: Karabina's formulas divide by g2 or g3, and unity is recognised
+         \* only as the full element 1 - four zero compressed coefficients with a[0][0] # 1 are not a
+         \* compressed element the routine is defined on (no demand on the outcome)
+         [] e.f = "back_cyc" ->
+                In1 /\ IF PckZero(e, e.a) /\ a # one THEN e.unch
+                       ELSE Clean(e) /\ BackOne(e, ri, T, gs, e.a, e.c)
          [] e.f = "back_cyc_sim" ->
-                /\ Clean(e) /\ Len(e.as) = e.n /\ Len(e.cs) = e.n
-                /\ \A i \in 1..e.n : IsEl(e, e.as[i]) /\ BackOne(e, ri, T, gs, e.as[i], e.cs[i])
+                /\ Len(e.as) = e.n /\ Len(e.cs) = e.n
+                /\ \A i \in 1..e.n : IsEl(e, e.as[i])
+                /\ IF \E i \in 1..e.n : PckZero(e, e.as[i]) /\ El(e, ri, T, e.as[i]) # one THEN e.unch
+                   ELSE Clean(e) /\ \A i \in 1..e.n : BackOne(e, ri, T, gs, e.as[i], e.cs[i])
          \* Frobenius powers: the p-th power map iterated k times (full = 2: Tower!TFrb as it stands;
          \* full = 1: the same with the balanced recursion; otherwise through semilinearity, TowerFrb)
          [] e.f = "frb" ->
